@@ -225,3 +225,20 @@ def corpus_files(kinds=('example', 'ok')):
 def read(path):
     with open(path) as f:
         return f.read()
+
+
+# ---------------------------------------------------------------------------------------------
+# pickling support for compiled machines (C20 compares machines compiled in different processes)
+import copyreg  # noqa: E402
+
+
+def _get_else():
+    return Else
+
+
+def _get_end():
+    return End
+
+
+copyreg.pickle(type(Else), lambda o: (_get_else, ()))
+copyreg.pickle(type(End), lambda o: (_get_end, ()))
